@@ -49,6 +49,11 @@ theorem chronoboxBankName_total (s : String) : NoPanic (parseChronoboxBankName s
 theorem wire_bijection (run : UInt32) (h : wireMapExists run.toNat) :
     WireBij (wirePosition run.toNat) := Maps.wire_bijection run.toNat h
 
+/-- The same as a bijection between finite types `Fin 8 × Fin 32 → Fin 256`. -/
+theorem wire_bijection_fin (run : UInt32) (h : wireMapExists run.toNat) :
+    Function.Injective (wireFin run.toNat) ∧ Function.Surjective (wireFin run.toNat) :=
+  Maps.wireFin_bijective run.toNat h
+
 /-- (installed PadWing board, chip, pad channel) ↦ pad is a bijection onto the 32 × 576 pads for
 every run with a map. -/
 theorem pad_bijection (run : UInt32) (h : pwbMapExists run.toNat) :
